@@ -236,14 +236,24 @@ def load_and_check(spec):
             m.close()
         after = dsgen.sha1_dir(ds)
         _dir_invariant(before, after, s, bad, loaded=True)
-        # loading again (now that derived files exist) must give the same clusters
-        if s['spike_clusters'] == 'absent' and not bad:
+        # loading again (now that the derived files exist) must give the same clusters and the same
+        # inverse whitening matrix
+        if not bad and (s['spike_clusters'] == 'absent' or tr['wmi_file'] is None):
             m2 = load_model(tr['params_path'])
             try:
-                k = same(m2.spike_clusters, tr['spike_templates'].astype(np.int64))
-                if k:
-                    bad.append(('spike_clusters-after-reload', k, describe(tr['spike_templates']),
-                                describe(m2.spike_clusters)))
+                if s['spike_clusters'] == 'absent':
+                    k = same(m2.spike_clusters, tr['spike_templates'].astype(np.int64))
+                    if k:
+                        bad.append(('spike_clusters-after-reload', k, describe(tr['spike_templates']),
+                                    describe(m2.spike_clusters)))
+                if tr['wmi_file'] is None:
+                    wm_exp2 = np.eye(s['n_channels']) if tr['wm'] is None else z(tr['wm'])
+                    try:
+                        ok = np.allclose(np.asarray(m2.wmi), np.linalg.inv(wm_exp2), rtol=1e-9, atol=1e-12)
+                    except Exception:
+                        ok = False
+                    if not ok:
+                        bad.append(('wmi-after-reload', 'value', 'inv(wm)', describe(np.asarray(m2.wmi))))
             finally:
                 m2.close()
     return bad, {'exception': False}
